@@ -493,7 +493,7 @@ Lemma rpath_src (x y z : option D) act : rpath x y z = Some act ->
   | DelA => is_Some x /\ y = None
   | DelB => x = None /\ is_Some y
   | ConfDelMod => (is_Some x /\ y = None) \/ (x = None /\ is_Some y)
-  | ConfBoth => True
+  | ConfBoth => is_Some x /\ is_Some y
   end.
 Proof. unfold rpath. intros Hr. destruct x as [xv|], y as [yv|], z as [zv|];
   repeat (case_decide || case_match); simplify_eq; cbn; eauto. Qed.
@@ -751,5 +751,76 @@ Proof. cbn zeta. intros Hnew Hne.
   destruct (archive_after_data_lemma s ae k Hnew Hne) as (A & B & C & E & F).
   split; [exact A|]. split; [rewrite bisync_steps_eq; apply take_app|]. split; [exact E|]. split; [exact F|].
   intros Hcn. destruct (data_steps_trees s Hcn) as [<- <-]. auto. Qed.
+
+
+(** ** the run never stops on an I/O error: every source of a copy exists *)
+Lemma copy_some (from : gmap K content) p (to : gmap K content) q : is_Some (from !! p) ->
+  exists c, copy from p to q = Some (<[q := c]> to).
+Proof. intros [c Hc]. exists c. unfold copy. rewrite Hc. reflexivity. Qed.
+
+Lemma apply_no_err a b (w : work) p act zx :
+  wErr w = false -> rpath (a !! p) (b !! p) zx = Some act ->
+  (is_Some (a !! p) -> is_Some (wA w !! p)) -> (is_Some (b !! p) -> is_Some (wB w !! p)) ->
+  wErr (apply a b w (p, act)) = false.
+Proof. intros He Hr HA HB. pose proof (rpath_src _ _ _ _ Hr) as Hs. unfold Bisync.apply. rewrite He.
+  destruct act; cbn in Hs; try reflexivity.
+  - destruct (copy_some (wA w) p (wB w) p (HA Hs)) as (c & ->). reflexivity.
+  - destruct (copy_some (wB w) p (wA w) p (HB Hs)) as (c & ->). reflexivity.
+  - destruct Hs as [Ha Hb]. specialize (HA Ha). specialize (HB Hb).
+    destruct Ha as [fa ->], Hb as [fb ->]. destruct (dge fa fb).
+    + destruct (copy_some (wB w) p (wB w) (cname p fb) HB) as (c1 & ->).
+      destruct (copy_some (<[cname p fb := c1]> (wB w)) p (wA w) (cname p fb)) as (c2 & ->);
+        [apply lookup_insert_is_Some'; right; exact HB|].
+      destruct (copy_some (<[cname p fb := c2]> (wA w)) p (<[cname p fb := c1]> (wB w)) p) as (c3 & ->);
+        [apply lookup_insert_is_Some'; right; exact HA|]. reflexivity.
+    + destruct (copy_some (wA w) p (wA w) (cname p fa) HA) as (c1 & ->).
+      destruct (copy_some (<[cname p fa := c1]> (wA w)) p (wB w) (cname p fa)) as (c2 & ->);
+        [apply lookup_insert_is_Some'; right; exact HA|].
+      destruct (copy_some (<[cname p fa := c2]> (wB w)) p (<[cname p fa := c1]> (wA w)) p) as (c3 & ->);
+        [apply lookup_insert_is_Some'; right; exact HB|]. reflexivity.
+  - destruct Hs as [[Ha Hb]|[Ha Hb]].
+    + specialize (HA Ha). destruct Ha as [fa ->].
+      destruct (copy_some (wA w) p (wB w) p HA) as (c & ->). reflexivity.
+    + rewrite Ha. specialize (HB Hb). destruct Hb as [fb ->].
+      destruct (copy_some (wB w) p (wA w) p HB) as (c & ->). reflexivity.
+Qed.
+
+(** an action removes nothing at other paths *)
+Lemma apply_dom_mono a b (w : work) p act x : x <> p ->
+  (is_Some (wA w !! x) -> is_Some (wA (apply a b w (p, act)) !! x)) /\
+  (is_Some (wB w !! x) -> is_Some (wB (apply a b w (p, act)) !! x)).
+Proof. intros Hx. unfold Bisync.apply, copy. destruct (wErr w); [auto|].
+  destruct act; repeat case_match; simplify_eq; cbn [wA wB fail];
+  rewrite ?lookup_insert_is_Some', ?lookup_delete_ne by congruence; auto. Qed.
+
+Lemma foldl_apply_no_err a b base pl (w : work) :
+  NoDup pl.*1 ->
+  (forall p act, (p, act) ∈ pl -> rpath (a !! p) (b !! p) (base_at base p) = Some act) ->
+  wErr w = false ->
+  (forall p, p ∈ pl.*1 -> (is_Some (a !! p) -> is_Some (wA w !! p)) /\ (is_Some (b !! p) -> is_Some (wB w !! p))) ->
+  wErr (foldl (apply a b) w pl) = false.
+Proof. revert w; induction pl as [|[p act] pl IH]; intros w Hnd Hpl He Hab; cbn [foldl]; [exact He|].
+  cbn [fmap list_fmap fst] in Hnd, Hab. apply NoDup_cons in Hnd as [Hp Hnd].
+  destruct (Hab p) as [HA HB]; [left|].
+  apply IH.
+  - exact Hnd.
+  - intros p' act' Hin. apply Hpl. right. exact Hin.
+  - eapply apply_no_err; [exact He|apply Hpl; left|exact HA|exact HB].
+  - intros p' Hin. assert (p' <> p) by (intros ->; contradiction).
+    destruct (apply_dom_mono a b w p act p') as [M1 M2]; [assumption|].
+    destruct (Hab p') as [HA' HB']; [right; exact Hin|]. split; auto. Qed.
+
+Lemma no_io_error s : wErr (wfin s) = false.
+Proof. unfold wfin. eapply foldl_apply_no_err with (base := arch s).
+  - apply plan_fst_NoDup.
+  - intros p act Hin. exact (plan_elem _ _ _ _ _ Hin).
+  - reflexivity.
+  - intros p _. cbn [w0_of wA wB]. unfold Bisync.scan. rewrite !lookup_fmap, !fmap_is_Some. auto. Qed.
+
+Lemma run_never_io_error s :
+  (bisync_run s).1.2 <> ExitIoError /\ arch (run_state s) = Some (wC (wfin s)) /\
+  forall ae, arch_part s ae = arch_steps ae (wC (wfin s)).
+Proof. rewrite run_exit_eq, run_state_eq. unfold arch_part. rewrite no_io_error. cbn [arch].
+  split; [case_decide; discriminate|]. auto. Qed.
 
 End P.
